@@ -35,7 +35,11 @@ func (p *mockProcessor) Execute(_ string, APIStream publictypes.APIStreamI) (str
 	log.Info().Int("arg1", p.arg1).Str("arg2", p.arg2).Msgf("Executing mock processor %s", p.name)
 	log.Info().Msgf("%s Body: %s", APIStream.GetType().String(), APIStream.GetBody())
 	if APIStream.GetType().IsResponseType() {
-		log.Info().Msgf("Res Body: %s", APIStream.GetResponse().GetBody())
+		// after a processor answered the request itself the response flows run on a stream
+		// that has no response object
+		if response := APIStream.GetResponse(); response != nil {
+			log.Info().Msgf("Res Body: %s", response.GetBody())
+		}
 	} else {
 		log.Info().Msgf("Req Body: %s", APIStream.GetRequest().GetBody())
 	}
